@@ -16,6 +16,11 @@ type Clause struct {
 	Src   string
 }
 
+type SendClause struct {
+	Type string
+	Clause
+}
+
 type LoopContract struct {
 	Invariants []Clause
 	Decreases  *Clause
@@ -37,6 +42,9 @@ type FuncContract struct {
 	Inline        bool
 	CheckOverflow bool
 	CheckConv     bool
+	CheckLocks    bool
+	AssumeCalleePre bool
+	OnSend        []SendClause
 	Wraps         []string
 	Lock          []string
 	Props         []string // property ids this contract serves
@@ -265,6 +273,8 @@ func parseClause(fc *FuncContract, word, rest string) error {
 			}
 			fc.Modifies = append(fc.Modifies, e)
 		}
+	case "assume_callee_pre":
+		fc.AssumeCalleePre = true
 	case "nopanic":
 		fc.NoPanic = true
 	case "trusted":
@@ -277,9 +287,23 @@ func parseClause(fc *FuncContract, word, rest string) error {
 			fc.CheckOverflow = true
 		case "conv":
 			fc.CheckConv = true
+		case "locks":
+			fc.CheckLocks = true
 		default:
 			return fmt.Errorf("check %q", rest)
 		}
+	case "onsend":
+		// onsend <ElemType> [label] expr   — asserted at every channel send of that element type; the sent value is `msg`
+		tn, r2 := splitWord(rest)
+		lab, src := labelled(r2)
+		if lab == "" {
+			lab = fmt.Sprintf("send%d", len(fc.OnSend)+1)
+		}
+		e, err := ParseExpr(src)
+		if err != nil {
+			return err
+		}
+		fc.OnSend = append(fc.OnSend, SendClause{Type: tn, Clause: Clause{Label: lab, Expr: e, Src: src}})
 	case "wraps":
 		fc.Wraps = append(fc.Wraps, strings.TrimSpace(rest))
 	case "props":
